@@ -1,7 +1,7 @@
 """C16 — globals are required unless defaulted, list-typed when declared, read-only."""
 import re
 from ..lib import typewalk
-from ..lib.cfgq import dominating_guards, switch_edges
+from ..lib.cfgq import absence_guard, dominating_guards, switch_edges
 from ..lib.facts import is_callee, callee_fn, sp_str
 from ..lib.trace import Tracer, canon, strip, walk
 from ..engines import e2_errflow as e2
@@ -16,9 +16,25 @@ LEVEL_TEXT = ("Branch↔outcome and dominance rules on the MIR: check_globals ru
               "interior mutability, defaults go into the private nested layer.")
 LEVEL_NOTE = ("Not decided: the outcomes over the full declaration × supply product as observed behaviour.")
 
-ITEM = r"\(Iterator::next\(&IntoIterator::into_iter\(&\*arg:self\.globals\)\) as Some\)\.0"
+# the element of a forward iteration over self.globals: `for g in &self.globals` or `self.globals.iter().try_for_each(|g| …)`
+ITEM = r"\(Iterator::next\(&(?:IntoIterator::into_iter\(&\*arg:self\.globals\)|slice::iter\(&\*Deref::deref\(&\*arg:self\.globals\)\))\) as Some\)\.0"
 
 WITNESSES = ["W3"]
+
+
+def _phi_alts(c):
+    alts, depth, cur = [], 0, ""
+    for ch in c[4:-1]:
+        if ch in "([{":
+            depth += 1
+        elif ch in ")]}":
+            depth -= 1
+        cur += ch
+        if depth == 0 and cur.endswith(" | "):
+            alts.append(cur[:-3])
+            cur = ""
+    alts.append(cur)
+    return alts
 
 
 def run(prog, rep):
@@ -49,6 +65,8 @@ def run(prog, rep):
                     pass
                 elif c.startswith("Try::branch("):
                     pass
+                elif c.startswith("phi(") and all(a in ("true", "false") or (a.startswith("PartialEq::eq(") and ".quantifier" in a) for a in _phi_alts(c)):
+                    out.add(("q-list", g.value))      # `let expects_list = q == * || q == +` kept in a local
                 else:
                     out.add(("other:" + c[:60], g.variant or g.value))
             return out
@@ -83,9 +101,21 @@ def run(prog, rep):
                     if c.startswith("PartialEq::eq(") and ".quantifier" in c and m and g.value is True:
                         t_edges[m.group(1)] = g.dst
             al = [b for b, t in body.calls() if is_callee(t, r"graph::Value::as_list$")]
-            ok = ok and set(t_edges) == {"ZeroOrMore", "OneOrMore"} and al and all(al[0] in body.reach_from([d]) for d in t_edges.values())
+            direct = set(t_edges) == {"ZeroOrMore", "OneOrMore"} and al and all(al[0] in body.reach_from([d]) for d in t_edges.values())
+            # or: the disjunction is first stored in a local (`let expects_list = q == * || q == +`) and then tested
+            mentioned = set()
+            for b2 in sorted(body.reachable()):
+                for st2 in body.blocks[b2]["stmts"]:
+                    if st2["k"] == "assign":
+                        mentioned |= set(re.findall(r"CaptureQuantifier::(\w+);", canon(tr.rvalue(st2["rv"])))) if st2["rv"]["k"] in ("use", "ref") else set()
+                t2 = body.term(b2)
+                if t2["k"] == "call" and is_callee(t2, r"PartialEq.*::eq$"):
+                    mentioned |= set(re.findall(r"CaptureQuantifier::(\w+);", " ".join(canon(tr.operand(a)) for a in t2["args"])))
+            stored = bool(al) and ("q-list", True) in conds(al[0]) and mentioned == {"ZeroOrMore", "OneOrMore"}
+            ok = ok and (direct or stored)
             # the value tested is the supplied one
-            ok = ok and re.match(r"^&\*\(Globals::get\(&\*arg:globals, &\*%s\.name\) as Some\)\.0$" % ITEM, canon(tr.operand(body.term(al[0])["args"][0]))) is not None if al else False
+            from ..lib.trace import canon_full
+            ok = ok and re.match(r"^&\*\(Globals::get\(&\*arg:globals, &\*%s\.name\) as Some\)\.0$" % ITEM, canon_full(tr.operand(body.term(al[0])["args"][0]))) is not None if al else False
         rep.check(ok, "C16.G", "check_globals :: ExpectedList", f.loc(), "a supplied value of a `*`/`+` global that is not a list → ExpectedList", "list check of quantified globals changed")
         # every declared global is processed: plain forward loop
         from ..engines.e3_driver import forward_loops
@@ -181,7 +211,7 @@ def run(prog, rep):
             ok = False
             for g in dominating_guards(body, tr, b):
                 c = canon(g.cond)
-                if re.match(r"^Option::is_some\(&(Globals|Variables)::get\(&\*+arg:(exec\.config|ctx)\.globals, &\*arg:self\.name\)\)$", c) and g.value is False:
+                if absence_guard(g, r"^(Globals|Variables)::get\(&\*+arg:(exec\.config|ctx)\.globals, &\*arg:self\.name\)$"):
                     other = [e for e in switch_edges(body, tr, g.src) if e.dst != g.dst]
                     if other:
                         r = body.reach_from([other[0].dst])
